@@ -7,9 +7,9 @@ export CARGO_NET_OFFLINE=true RUST_BACKTRACE=0
 W=/tmp/xs-$$; rm -rf $W; mkdir -p $W
 cp -r /repo/src $W/src; cp /repo/config-example.toml /repo/Cargo.toml $W/
 ( cd $W && patch -s -p1 < "$P" ) || { echo "patch failed"; rm -rf $W; exit 2; }
-( cd /verif/harness && SIRC_SRC=$W/src CARGO_TARGET_DIR=/tmp/xs-target cargo build --profile verif --offline 2>$W/build.log ) || { echo "build failed"; tail -5 $W/build.log; rm -rf $W; exit 2; }
+( cd /verif/harness && SIRC_SRC=$W/src CARGO_TARGET_DIR=${XS_TARGET:-/tmp/xs-target} cargo build --profile verif --offline 2>$W/build.log ) || { echo "build failed"; tail -5 $W/build.log; rm -rf $W; exit 2; }
 for id in "$@"; do
-  out=$(cd /verif && SIRC_VERIF_OUT=$W SIRC_EXAMPLE=$W/config-example.toml /tmp/xs-target/verif/sircverif check "$id" --tier quick 2>&1); rc=$?
+  out=$(cd /verif && SIRC_VERIF_OUT=$W SIRC_EXAMPLE=$W/config-example.toml ${XS_TARGET:-/tmp/xs-target}/verif/sircverif check "$id" --tier quick 2>&1); rc=$?
   pred=$(echo "$out" | grep -m1 "predicate" | sed 's/.*predicate //' | cut -c1-200)
   if [ $rc -eq 1 ]; then echo "$id: DETECTED  $pred"; elif [ $rc -eq 0 ]; then echo "$id: missed"; else echo "$id: rc=$rc"; fi
 done
